@@ -8,7 +8,7 @@ CONSTANTS
   MaxMAttrs = 2
   DTs = {"struct"}
   Shapes = {"tuple"}
-  TNames = {"map", "from_owned", "owned_into", "into_existing"}
+  TNames = {"map", "from_owned", "owned_into", "into_existing", "try_from_ref"}
   Hints = {"-", "struct"}
   TMenu = {"ghosts"}
   MMenu = {"map", "map_bare", "map_action", "ghost_d", "parent0"}
